@@ -156,9 +156,9 @@ lu_det = Fn(IM + 'lu_det', ret='r', level='L1', valid='self.nrows == self.ncols'
             requires=['C11.lu_det.wf:: wf(*self)', 'C11.lu_det.perm:: is_perm32(piv@, piv@.len() as int) && piv@.len() <= 0x7fff_ffff'],
             ensures=['C11.lu_det.valid:: self.nrows == self.ncols',
                      'C11.lu_det.signed_product:: exists|s: i32| #[trigger] is_sign(piv@, s) && rv(r) == diag_prod(self.data.v@, self.nrows as int, self.nrows as int) * (s as real)'],
-            rewrites=[('self.diag().prod() * ipiv_parity(piv) as f64',
-                       '({ let d_ = self.diag(); let pr_ = d_.prod(); let s_ = ipiv_parity(piv); let out_ = pr_ * s_ as f64; '
-                       'proof { lemma_rprod_diag(d_.v@, self.data.v@, self.nrows as int, self.nrows as int); assert(is_sign(piv@, s_)); } out_ })', 'R31')])
+            rewrites=[(r'self\.diag\(\)\.prod\(\) ([*/]) ipiv_parity\(piv\) as f64',
+                       r'({ let d_ = self.diag(); let pr_ = d_.prod(); let s_ = ipiv_parity(piv); let out_ = pr_ \1 s_ as f64; '
+                       r'proof { lemma_rprod_diag(d_.v@, self.data.v@, self.nrows as int, self.nrows as int); assert(is_sign(piv@, s_)); assert(s_ == 1 || s_ == -1); let sr_ = rv(f_of_int(s_ as int)); assert(sr_ == (s_ as real)); if s_ == 1 { assert(sr_ == 1real); assert(rv(pr_) / 1real == rv(pr_) * 1real); } else { assert(sr_ == -1real); assert(rv(pr_) / (-1real) == rv(pr_) * (-1real)); } assert(rv(out_) == rv(pr_) * (s_ as real)); } out_ })', 'R31 (operator kept verbatim)', 're')])
 UNITS.append(Unit('C11_matrix_chol_solve', ('C11', 'C01'), [mchs, lu_det], use=core.core_stubs() + [mfwd, mbwd, c15b.is_lt, c15.mt, c15.mdiag, rec.vprod_m, rec.parity],
                   types=core.TYPES, type_spec=core.TYPE_SPEC,
                   spec=t.SPEC + c01.SQ_UNIQUE + t.CHOL_SPEC + t.CHOL2_SPEC + c15b.TRI_SPEC + rec.PAR_SPEC + rec.DET_SPEC + rec.REC_SPEC + c01.LU_SPEC, nra=t.NRA,
